@@ -356,6 +356,9 @@ func TestSim(t *testing.T) {
 				sum.KnownHits[v.Sig]++
 				continue
 			}
+			if only := os.Getenv("VERIF_ONLY_SIG"); only != "" && v.Sig != only {
+				continue // tools/refresh_witnesses.py looks for one signature
+			}
 			if seenSig[v.Sig] {
 				sum.Stats["violations.duplicate-signature"]++
 				continue
